@@ -17,6 +17,9 @@ type kaCase struct {
 	Queued     int
 	SilenceAt  time.Duration // after the handshake
 	Adaptive   bool
+	// SlowGap > 0: after the transport went silent the application keeps sending, one message per
+	// SlowGap (slower than the window fills, faster than the ping interval)
+	SlowGap time.Duration
 }
 
 type kaResult struct {
@@ -68,6 +71,18 @@ func deadPeerCase(t *testing.T, c kaCase, horizon time.Duration) kaResult {
 			go func() {
 				defer res.tw.Done()
 				sendErr <- conns[0].Send(payloadFor(0, i, 3))
+			}()
+		}
+		if c.SlowGap > 0 {
+			res.tw.Add(1)
+			go func() {
+				defer res.tw.Done()
+				for i := 0; ; i++ {
+					if conns[0].Send(payloadFor(0, 1000+i, 3)) != nil {
+						return
+					}
+					time.Sleep(c.SlowGap)
+				}
 			}()
 		}
 		deadline := time.After(horizon)
@@ -321,6 +336,15 @@ func TestC13(t *testing.T) {
 			}
 		}
 	}
+	// the application goes on sending slowly into the silence (sitting neither idle nor on a full window)
+	for _, pp := range settings[:2] {
+		for _, n := range []uint8{20, 200} {
+			for _, div := range []time.Duration{2, 5} {
+				cases = append(cases, kaCase{Ping: pp[0], Pong: pp[1], N: n, Queued: 0, SilenceAt: pp[0]/3 + 3*time.Millisecond,
+					Adaptive: div == 2, SlowGap: pp[0]/div - 7*time.Millisecond})
+			}
+		}
+	}
 	var mu sync.Mutex
 	idx := 0
 	t.Run("dead-peer", func(t *testing.T) {
@@ -342,6 +366,9 @@ func TestC13(t *testing.T) {
 					if c.Queued >= int(c.N) {
 						full = "full-window"
 					}
+					if c.SlowGap > 0 {
+						full = "slow-sender"
+					}
 					r.Case(fmt.Sprintf("%+v", c), true, fmt.Sprintf("dead-peer/%v-%v/%s", c.Ping, c.Pong, full))
 					switch {
 					case res.Panic != "":
@@ -351,8 +378,8 @@ func TestC13(t *testing.T) {
 						if c.Queued >= int(c.N) {
 							sig = "C13/full-window-no-keepalive"
 						}
-						r.Violate(sig, fmt.Sprintf("transport silent, %d sends queued (window %d), ping %v pong %v: not closed within 10 minutes",
-							c.Queued, c.N, c.Ping, c.Pong), c)
+						r.Violate(sig, fmt.Sprintf("transport silent, %d sends queued (window %d), application sending every %v, ping %v pong %v: not closed within 10 minutes",
+							c.Queued, c.N, c.SlowGap, c.Ping, c.Pong), c)
 					case res.Detected > kaBound(c):
 						r.Violate("C13/dead-peer-detected-late", fmt.Sprintf("closed %v after the transport went silent (bound %v)", res.Detected, kaBound(c)), c)
 					case !res.SendFailed || !res.RecvFailed:
